@@ -606,7 +606,7 @@ func VerifC07BPMFlag() {
 // stdin as through a FILE argument. The short texts of the other harnesses cannot see
 // anything that only happens above a size threshold.
 func VerifC12LongInput() {
-	n := vf.Param("C12.longChords", 140)
+	n := vf.Param("C12.longChords", 520)
 	vf.Unwind(400 * n) // the input is concrete; loops run as long as the text is
 	var sb strings.Builder
 	for i := 0; i < n; i++ {
@@ -644,8 +644,85 @@ func VerifC12LongInput() {
 	vf.CPUs(1)
 	ref, rerr := run(false)
 	vf.Assert("long-piece-converts", rerr == nil && ref != "")
+	// nothing is dropped above any buffer or batch size: one top-level item per element
+	items := 0
+	for i := 0; i+1 < len(ref); i++ {
+		if ref[i] == '-' && ref[i+1] == ' ' && (i == 0 || ref[i-1] == '\n') {
+			items++
+		}
+	}
+	vf.Assert("every-element-of-a-long-piece-is-converted", items == n)
 	// again with another CPU count and an arbitrary choice of who runs first at every start
 	vf.CPUs([]int{1, 2, 4, 16}[vf.NondetIntRange("cpus", 0, 3)])
+	vf.NondetSpawnOrder(true)
+	again, aerr := run(vf.NondetIntRange("stdin", 0, 1) == 1)
+	vf.NondetSpawnOrder(false)
+	vf.Assert("same-outcome-on-every-run", (aerr == nil) == (rerr == nil))
+	vf.Assert("same-bytes-on-every-run", again == ref)
+	vf.Reach("end")
+}
+
+// VerifC12LongWrite: `write --track 3` on a long instances document: the same bytes on every run
+// (CPU count, spawn order, stdin vs FILE), and every chord of the document is in the output.
+func VerifC12LongWrite() {
+	n := vf.Param("C12.longInstances", 400)
+	vf.Unwind(4000 * n)
+	var sb strings.Builder
+	chords := 0
+	for i := 0; i < n; i++ {
+		switch {
+		case i%5 == 4:
+			sb.WriteString("- values: [\"1/2\"]\n")
+		case i == n/2:
+			sb.WriteString("- chord: {degree: \"4\", name: sus4}\n  values: [\"1\"]\n  key: Eb\n  bpm: 140\n")
+			chords++
+		default:
+			sb.WriteString("- chord: {degree: \"" + []string{"1", "b3", "5"}[i%3] + "\", name: \"\"}\n  values: [\"1\", \"1/3\"]\n")
+			chords++
+		}
+	}
+	in := vf.TempPath("longw-in.yml")
+	verifReset(in)
+	defer verifReset(in)
+	os.WriteFile(in, []byte(sb.String()), 0o644)
+	out := vf.TempPath("longw-out.mid")
+	verifReset(out)
+	defer verifReset(out)
+	vf.Assert("flags-parse", writeCmd.ParseFlags([]string{"--output", out, "--track", "3"}) == nil)
+	run := func(useStdin bool) (string, error) {
+		args := []string{in}
+		oldIn := os.Stdin
+		if useStdin {
+			f, err := os.Open(in)
+			if err != nil {
+				return "", err
+			}
+			os.Stdin = f
+			defer func() { os.Stdin = oldIn; f.Close() }()
+			args = []string{"-"}
+		}
+		os.Remove(out)
+		err := writeCmd.RunE(writeCmd, args)
+		b, _ := os.ReadFile(out)
+		return string(b), err
+	}
+	vf.CPUs(1)
+	ref, rerr := run(false)
+	vf.Assert("long-document-is-written", rerr == nil && ref != "")
+	f, why := spec.ParseSMF([]byte(ref))
+	vf.Assert("well-formed-smf", f != nil && why == "")
+	ons := 0
+	if f != nil {
+		for _, tr := range f.Tracks {
+			for _, ev := range tr {
+				if ev.Status&0xF0 == 0x90 {
+					ons++
+				}
+			}
+		}
+	}
+	vf.Assert("every-chord-of-a-long-document-is-played", ons == 4*chords)
+	vf.CPUs([]int{2, 16}[vf.NondetIntRange("cpus", 0, 1)])
 	vf.NondetSpawnOrder(true)
 	again, aerr := run(vf.NondetIntRange("stdin", 0, 1) == 1)
 	vf.NondetSpawnOrder(false)
